@@ -20,6 +20,11 @@ def run(v):
     q = v.tier == "quick"
     cov = merge_cov(cov, run_tree_groups(v, SEED + 880, 12 if q else 60, 4 if q else 5, 1500 if q else 12000, ("alt", "adj"),
                                          cmdline_sig.signature, ledger_every=3 if q else 1, driver_n=4000 if q else 100000), "tree_groups")
+    # a regular subcommand nested in an adjacent one, chained with another adjacent command
+    ncov = run_cmdline_property(v, D.nested_in_acmd_family(SEED + 83, 6 if q else 18, maxlen=5 if q else 6, budget=4000 if q else 40000), None,
+                                replay_cfg="MC_GroupLine_replay.cfg", module="MC_GroupLine", signature=cmdline_sig.signature,
+                                trace_module="GroupLineTrace", name="C08n")
+    cov = merge_cov(cov, ncov, "nested_in_adjacent")
     cov["rule"] = ("command trees of depth <= 3 with aliases, short aliases, optional commands and leaf positionals; all lines up "
                    "to maxlen incl. deeper items left of their command name, unknown commands, `--` before a command name, "
                    "help after every command name; ScopeAfterCommand checked by TLC; plus commands whose own level holds choices and adjacent "
